@@ -63,6 +63,12 @@ func judge(op, src string) (o kit.Outcome) {
 		if v.Syntax {
 			o.Class = "both-reject(syntax)"
 		}
+	case v.Accepted && err != nil && strings.Contains(be.Message(), "not supported"):
+		// the statement is about the SUPPORTED subset: a build error that says the
+		// construct is not supported (method declarations, non-empty interfaces,
+		// labels of outer statements, range with a non-name target…) delimits it
+		o.Class = "outside the supported subset (the BuildError says: not supported)"
+		o.Nontrivial = false
 	case v.Accepted && err != nil:
 		return kit.Outcome{Key: op + " | scriggo-rejects-valid | " + gomutants.Normalise(be.Message(), src), Class: "fail", Nontrivial: true, Hash: o.Hash,
 			Detail: fmt.Sprintf("%s\ngo/types: accepted\nscriggo.Build: %v", src, err)}
@@ -123,7 +129,7 @@ func spaces(tier string) []kit.Space {
 			Size: uint64(len(constructs)),
 			Eval: func(i uint64) kit.Outcome {
 				o := judge("construct "+constructs[i].Name, constructs[i].Src)
-				if o.OK && o.Class != "both-accept" {
+				if o.OK && o.Class != "both-accept" && !strings.HasPrefix(o.Class, "outside the supported subset") {
 					return kit.Outcome{Key: "construct " + constructs[i].Name + " is not accepted by go/types", Detail: constructs[i].Src, Class: "fail"}
 				}
 				return o
